@@ -20,7 +20,7 @@ ASSUMPTIONS = ['firmware layouts: crtp_commander_rpyt / crtp_commander_generic (
                'crtp_commander_high_level (0,3,4,5,6,7,8,11,12), crtp_localization_service, platformservice',
                'legacy (protocol version <= 8) velocity/zdistance/hover packets carry the yaw rate negated',
                'full-state rates are sent as value*1000 fixed point (unit as passed by the caller)']
-REQUIRED = ['mon.setpoints_built_while_the_version_answer_arrives', 'mon.rpyt', 'mon.generic_setpoints', 'mon.full_state', 'mon.high_level', 'mon.localization', 'mon.platform',
+REQUIRED = ['mon.headers_of_packets_addressed_again', 'mon.setpoints_built_while_the_version_answer_arrives', 'mon.rpyt', 'mon.generic_setpoints', 'mon.full_state', 'mon.high_level', 'mon.localization', 'mon.platform',
             'mon.lpp', 'mon.refused', 'mon.headers', 'mon.legacy_versions', 'mon.xmode', 'mon.full_state_orientation_judged',
             'mon.full_state_negated_orientation', 'mon.queued_packets_rechecked',
             'mon.unrelated_platform_packets_after_negotiation']
@@ -537,6 +537,26 @@ def run(desc, ctx):
                 if not ok:
                     ctx.violate('header:port-channel-not-lossless', {'port': port, 'chan': chan, 'set_header': a.header,
                                                                     'setters': b.header, 'ctor': (c.port, c.channel)})
+        # one packet object addressed again and again (a re-used packet; a received packet turned into the answer): the
+        # header byte is always that of the LAST address, nothing of the earlier ones is left in it
+        hrnd = random.Random(desc.get('seed', 0))
+        for trial in range(300):
+            how0 = hrnd.randrange(3)
+            pk = CRTPPacket(hrnd.randrange(256), [1]) if how0 == 0 else CRTPPacket()
+            for step in range(hrnd.randint(1, 4)):
+                port, chan = hrnd.randrange(16), hrnd.randrange(4)
+                if hrnd.random() < 0.5:
+                    pk.set_header(port, chan)
+                else:
+                    pk.port = port
+                    pk.channel = chan
+                ctx.evals()
+                ctx.count('mon.headers_of_packets_addressed_again')
+                want = port << 4 | 3 << 2 | chan
+                if pk.header != want or pk.get_header() != want or (pk.port, pk.channel) != (port, chan):
+                    ctx.violate('header:packet-addressed-again-keeps-bits-of-the-earlier-address',
+                                {'port': port, 'chan': chan, 'header': pk.header, 'expected': want, 'step': step})
+                    break
         # payload limit
         p = CRTPPacket()
         p.data = bytes(31)
